@@ -239,8 +239,13 @@ func (db *DB) startAsyncWritesRoutine(s *Schema) {
 		go func() {
 			for db.ctx.Err() == nil {
 				for slept := time.Duration(0); ; slept += step {
-					n := db.safeCountPendingAsyncW(s.object)
-					if n >= s.AsyncWrites.Threshold || slept >= s.AsyncWrites.Timeout {
+					// settings may be changed by Create at any time, so they have to be
+					// read under the lock and the routine stops if async writes got disabled
+					n, threshold, timeout, enabled := db.safeAsyncWState(s)
+					if !enabled {
+						return
+					}
+					if n >= threshold || slept >= timeout {
 						// enter critical section
 						db.Lock()
 						// checking db.ctx not to race with db.Close function
@@ -264,6 +269,17 @@ func (db *DB) safeCountPendingAsyncW(of Object) (n int) {
 	db.RLock()
 	defer db.RUnlock()
 	return db.asyncw.count(of)
+}
+
+// safeAsyncWState returns the number of pending writes and
+// the current async writes settings of a schema
+func (db *DB) safeAsyncWState(s *Schema) (n, threshold int, timeout time.Duration, enabled bool) {
+	db.RLock()
+	defer db.RUnlock()
+	if !s.asyncWritesEnabled() {
+		return
+	}
+	return db.asyncw.count(s.object), s.AsyncWrites.Threshold, s.AsyncWrites.Timeout, true
 }
 
 func (db *DB) schema(of Object) (s *Schema, err error) {
